@@ -341,6 +341,11 @@ def lazy_taint(prog, f, dask_only=True, module_param=None):
                 reds.append(s)
             elif mentions_lazy(v) and not (isinstance(v, ast.Call) and short(v) in ('compute',)):
                 lazy.add(name)
+        elif isinstance(s, ast.Return) and s.value is not None:
+            # a reduction used directly in the returned expression is still a (lazy) global reduction site
+            if any(isinstance(x, ast.Call) and short(x) in REDUCERS and x.args and isinstance(x.func, ast.Attribute) and
+                   norm(x.func.value) in ('da', 'np', 'numpy', 'dask.array', module_param or 'da') for x in ast.walk(s.value)):
+                reds.append(s)
         # sinks
         for c in [x for x in ast.walk(s) if isinstance(x, ast.Call)]:
             if pm.get(c) is not None and under_non_dask_branch(c):
